@@ -67,3 +67,51 @@ func JSONDiff(a, b interface{}) []string {
 	}
 	return out
 }
+
+// JSONDiffValues lists "path: before -> after" for the differing leaves of two objects (debugging aid).
+func JSONDiffValues(a, b interface{}) []string {
+	var x, y interface{}
+	ab, _ := json.Marshal(a)
+	bb, _ := json.Marshal(b)
+	_ = json.Unmarshal(ab, &x)
+	_ = json.Unmarshal(bb, &y)
+	var out []string
+	var walk func(p string, x, y interface{})
+	walk = func(p string, x, y interface{}) {
+		xm, xok := x.(map[string]interface{})
+		ym, yok := y.(map[string]interface{})
+		if xok || yok {
+			keys := map[string]bool{}
+			for k := range xm {
+				keys[k] = true
+			}
+			for k := range ym {
+				keys[k] = true
+			}
+			ks := make([]string, 0, len(keys))
+			for k := range keys {
+				ks = append(ks, k)
+			}
+			sort.Strings(ks)
+			for _, k := range ks {
+				walk(p+"."+k, xm[k], ym[k])
+			}
+			return
+		}
+		if !reflect.DeepEqual(x, y) {
+			xs, _ := json.Marshal(x)
+			ys, _ := json.Marshal(y)
+			if len(xs) > 80 {
+				xs = append(xs[:80], '.', '.')
+			}
+			if len(ys) > 80 {
+				ys = append(ys[:80], '.', '.')
+			}
+			if p != ".metadata.resourceVersion" {
+				out = append(out, fmt.Sprintf("%s: %s -> %s", p, xs, ys))
+			}
+		}
+	}
+	walk("", x, y)
+	return out
+}
